@@ -97,6 +97,11 @@ type violation struct {
 
 func (v violation) kind(lang string) string { return lang + ": " + v.Clause + " @ " + v.Pos }
 
+// isName: the member-name clauses (their kinds carry no "since <pass>").
+func (v violation) isName() bool {
+	return v.Clause == clNameGo || v.Clause == clNameNum || v.Clause == clNamePHP
+}
+
 // step of a path from an object's top-level type down to a node.
 type step struct {
 	class string // position-class fragment
@@ -132,17 +137,19 @@ func kindWord(t ast.Type) string {
 	return string(t.Kind)
 }
 
-// posClass renders "X in <innermost> in ... in <outermost> of <object origin>".
-func posClass(what string, path []step, origin string) string {
-	parts := []string{what}
-	for i := len(path) - 1; i >= 0; i-- {
-		parts = append(parts, path[i].class)
-	}
-	s := strings.Join(parts, " in ")
+// posClass is the position class of a construct: the construct and its
+// IMMEDIATE container ("union in union branch", "enum in map index", "struct
+// in array", "T|null in optional field", "... as top-level type"). Deeper
+// context and the object the type belongs to are deliberately abstracted away:
+// passes that merely relocate a type (hoisting a struct into a new object,
+// inlining an alias) must not change the class, and one cause must not produce
+// one kind per nesting depth. The concrete position is kept in the
+// human-readable text.
+func posClass(what string, path []step) string {
 	if len(path) == 0 {
-		s = what + " as top-level type"
+		return what + " as top-level type"
 	}
-	return s + " of " + origin
+	return what + " in " + path[len(path)-1].class
 }
 
 func wherePath(obj string, path []step) string {
@@ -187,7 +194,7 @@ func evaluate(schemas ast.Schemas, inputObjects map[string]bool) []violation {
 			continue
 		}
 		if sch.EntryPointType.Kind != "" {
-			e.walk(sch.EntryPointType, "<entrypoint of "+sch.Package+">", "the entry point type", []step{{"entry point", ""}}, false)
+			e.walk(sch.EntryPointType, "<entry point type of "+sch.Package+">", "the schema", nil, false)
 		}
 		if sch.Objects == nil {
 			continue
@@ -210,24 +217,39 @@ func evaluate(schemas ast.Schemas, inputObjects map[string]bool) []violation {
 }
 
 func (e *evaluator) names(obj ast.Object, origin string) {
+	// The position class of a name violation is the class of the offending
+	// NAME (where the enum object came from does not matter: every nested
+	// enum ends up as such an object).
 	prefix := strings.ToLower(nonAlnum.ReplaceAllString(obj.Name, ""))
 	for _, m := range obj.Type.Enum.Values {
-		where := fmt.Sprintf("%s member %q", obj.Name, m.Name)
-		pos := "enum object, " + origin
+		where := fmt.Sprintf("%s member %q (%s)", obj.Name, m.Name, origin)
 		if !strings.HasPrefix(strings.ToLower(nonAlnum.ReplaceAllString(m.Name, "")), prefix) {
-			e.add(clNameGo, pos, where)
+			e.add(clNameGo, "member of an enum object", where)
 		}
 		if numericRe.MatchString(m.Name) {
-			e.add(clNameNum, pos, where)
+			e.add(clNameNum, nameClass(m.Name)+" of an enum object", where)
 		}
 		rest := nonIdent.ReplaceAllString(m.Name, "")
-		switch {
-		case rest == "":
-			e.add(clNamePHP, "empty name in "+pos, where)
-		case rest[0] >= '0' && rest[0] <= '9':
-			e.add(clNamePHP, "name starting with a digit in "+pos, where)
+		if rest == "" || (rest[0] >= '0' && rest[0] <= '9') {
+			e.add(clNamePHP, nameClass(m.Name)+" of an enum object", where)
 		}
 	}
+}
+
+func nameClass(name string) string {
+	switch {
+	case name == "":
+		return "empty name"
+	case name[0] == '-':
+		return "name with a leading minus sign"
+	case name[0] == '+':
+		return "name with a leading plus sign"
+	case name[0] >= '0' && name[0] <= '9':
+		return "name starting with a digit"
+	case nonIdent.ReplaceAllString(name, "") == "":
+		return "name without any identifier character"
+	}
+	return "name whose first identifier character is a digit"
 }
 
 // walk visits t and everything below it: struct fields, array elements, map
@@ -237,12 +259,12 @@ func (e *evaluator) walk(t ast.Type, obj string, origin string, path []step, und
 	sub := func(s step) []step { return append(append([]step{}, path...), s) }
 	switch t.Kind {
 	case ast.KindDisjunction:
-		e.add(clUnion, posClass("union", path, origin), wherePath(obj, path))
+		e.add(clUnion, posClass("union", path), wherePath(obj, path)+" ("+origin+")")
 		if t.Disjunction == nil {
 			return
 		}
 		if len(t.Disjunction.Branches) == 2 && (isNull(t.Disjunction.Branches[0]) || isNull(t.Disjunction.Branches[1])) {
-			e.add(clTNull, posClass("T|null", path, origin), wherePath(obj, path))
+			e.add(clTNull, posClass("T|null", path), wherePath(obj, path)+" ("+origin+")")
 		}
 		for i, b := range t.Disjunction.Branches {
 			e.walk(b, obj, origin, sub(step{"union branch", fmt.Sprintf("|%d", i)}), underInter)
@@ -265,7 +287,7 @@ func (e *evaluator) walk(t ast.Type, obj string, origin string, path []step, und
 		}
 	case ast.KindEnum:
 		if len(path) > 0 {
-			e.add(clEnum, posClass("enum", path, origin), wherePath(obj, path))
+			e.add(clEnum, posClass("enum", path), wherePath(obj, path)+" ("+origin+")")
 		}
 		if t.Enum != nil {
 			for i, m := range t.Enum.Values {
@@ -274,7 +296,7 @@ func (e *evaluator) walk(t ast.Type, obj string, origin string, path []step, und
 		}
 	case ast.KindStruct:
 		if len(path) > 0 && !underInter {
-			e.add(clStruct, posClass("struct", path, origin), wherePath(obj, path))
+			e.add(clStruct, posClass("struct", path), wherePath(obj, path)+" ("+origin+")")
 		}
 		if t.Struct == nil {
 			return
@@ -288,10 +310,9 @@ func (e *evaluator) walk(t ast.Type, obj string, origin string, path []step, und
 			if !f.Required && !f.Type.Nullable {
 				structPos := "top-level struct"
 				if len(path) > 0 {
-					structPos = posClass("struct", path, "")
-					structPos = strings.TrimSuffix(structPos, " of ")
+					structPos = posClass("struct", path)
 				}
-				e.add(clNullable, kindWord(f.Type)+"-typed field of "+structPos+" of "+origin, wherePath(obj, fp))
+				e.add(clNullable, kindWord(f.Type)+"-typed field of "+structPos, wherePath(obj, fp)+" ("+origin+")")
 			}
 			e.walk(f.Type, obj, origin, fp, underInter)
 		}
